@@ -158,6 +158,29 @@ def stale_in_flight(sid, api="error", timeout_ms=400):
     return s.done()
 
 
+def stale_failure_record(sid, timeout_ms=400):
+    """the runtime crashes during invocation 1; the goroutine that reports the failure (default error answer, then the
+    completion record) is held before it gets that far; the invocation times out and is reset; only then is the
+    record produced.  It completes invocation 1, which is over: the next invocation must not take it for its own."""
+    s = Scn(sid, ext=[], timeout_ms=timeout_ms, opWaitMs=6000)
+    s.meta(family=FAMILY, schedule="stale-failure-record")
+    s.init()
+    s.await_exec(kind="rt")
+    tags = {"rt": s.poll("rt")}
+    s.round(tags, {})
+    s.hold("server.sendErrorResponse", 1)
+    it = s.invoke(size=5, seed=7)
+    s.wait(tags["rt"])
+    s.exit("rt", code=1)
+    s.until_held("server.sendErrorResponse")
+    s.wait(it)                      # nobody reports the failure: the invocation times out and is reset
+    s.release("server.sendErrorResponse")
+    s.sleep(40)
+    tags = s.recover({})
+    s.round(tags, {})
+    return s.done()
+
+
 def double_reset(sid, timeout_ms=400):
     s = Scn(sid, ext=[], timeout_ms=timeout_ms, opWaitMs=8000)
     s.meta(family=FAMILY, schedule="double-reset")
@@ -283,6 +306,7 @@ def scenarios(prefix, which=("watch-late-cancel", "clear-vs-invoke", "ghost-invo
           "dispatch-held": dispatch_held,
           "register-vs-close": register_vs_close,
           "stale-shutdown": stale_shutdown,
+          "stale-failure-record": stale_failure_record,
           "stale-error-in-flight": lambda sid: stale_in_flight(sid, "error"),
           "stale-response-in-flight": lambda sid: stale_in_flight(sid, "response")}
     for i, w in enumerate(which):
